@@ -7,7 +7,7 @@
 From Coq Require Import List NArith Bool.
 From NV Require Import Syntax.Token Syntax.Ast Syntax.StmtAst Syntax.StrEsc Syntax.Parser Syntax.Grammar
      Syntax.StrEscProofs Syntax.TypedPrinter Syntax.TypedPrinterProofs Syntax.FixedPoint
-     Syntax.TypeGrammar Syntax.StmtGrammar Syntax.DefEcho Syntax.Lexer Syntax.LexString.
+     Syntax.TypeGrammar Syntax.StmtGrammar Syntax.DefEcho Syntax.Lexer Syntax.LexString Syntax.TypedPrinterSep.
 Import ListNotations.
 Local Open Scope N_scope.
 
@@ -33,6 +33,16 @@ Theorem C15_roundtrip_exact : forall e : texpr,
   printable_t e = true -> exact_t e = true -> parse (pp e) = Ok [StExpr (erase e)] [].
 Proof. exact echo_roundtrip_exact. Qed.
 Print Assumptions C15_roundtrip_exact.
+
+(* Digit separators: the restriction of C15_roundtrip_exact to literals without `_` is not needed for
+   the meaning: for every printable expression without temperature sugar the echo is read back as the
+   tree it was elaborated from up to the digit separators of its literals (`strip_us`; the value of a
+   literal does not depend on them). *)
+Theorem C15_roundtrip_sep : forall e : texpr,
+  printable_t e = true -> nosugar_t e = true ->
+  exists u, parse (pp e) = Ok [StExpr u] [] /\ strip_us u = strip_us (erase e).
+Proof. exact echo_roundtrip_sep. Qed.
+Print Assumptions C15_roundtrip_sep.
 
 (* The fixed-point clause: reading the echo back and elaborating it again (in a session in which
    the same names are units resp. functions: `lift is_unit is_fn`) gives a tree with the same echo.
